@@ -23,6 +23,18 @@ type span struct {
 	Off     int  `json:"off"`
 	Len     int  `json:"len"`
 	Foreign bool `json:"foreign,omitempty"` // located on another transcript
+	NoLoc   bool `json:"no_loc,omitempty"`  // located on no transcript at all (nil Transcript)
+}
+
+// loc codes where a span lies: 0 the transcript under test, 1 another transcript, 2 nowhere.
+func (s span) loc() int {
+	switch {
+	case s.NoLoc:
+		return 2
+	case s.Foreign:
+		return 1
+	}
+	return 0
 }
 
 func (s span) end() int { return s.Off + s.Len }
@@ -106,7 +118,7 @@ func addAccepts(old, add []span) ([]span, bool) {
 		if all[i].Off < all[i-1].end() {
 			return nil, false
 		}
-		if all[i].Foreign != all[i-1].Foreign {
+		if all[i].loc() != all[i-1].loc() {
 			return nil, false
 		}
 	}
@@ -115,7 +127,7 @@ func addAccepts(old, add []span) ([]span, bool) {
 
 func setAccepts(ex []span) ([]span, bool) {
 	all, ok := addAccepts(nil, ex)
-	if !ok || len(all) == 0 || all[0].Foreign || all[0].Off != 0 {
+	if !ok || len(all) == 0 || all[0].loc() != 0 || all[0].Off != 0 {
 		return nil, false
 	}
 	return all, true
@@ -160,6 +172,9 @@ func (w *world) exon(s span) gene.Exon {
 	t := w.t
 	if s.Foreign {
 		t = w.foreign
+	}
+	if s.NoLoc {
+		t = nil
 	}
 	return gene.Exon{Transcript: t, Offset: s.Off, Length: s.Len}
 }
@@ -330,7 +345,7 @@ func checkTiling(w *world, c geneCase, model []span) *vlib.Failure {
 		if e.Start() != pos {
 			return vlib.Failf("tiling", "exon %d starts at %d, the preceding piece ends at %d (exons %v)", i, e.Start(), pos, model)
 		}
-		if e.Len() <= 0 || e.End() != e.Start()+e.Len() {
+		if e.Len() < 0 || e.Len() == 0 && len(model) > i && model[i].Len != 0 || e.End() != e.Start()+e.Len() {
 			return vlib.Failf("tiling", "exon %d has Start/End/Len %d/%d/%d", i, e.Start(), e.End(), e.Len())
 		}
 		if e.Location() != feat.Feature(w.t) {
@@ -703,7 +718,11 @@ func gen(t *rapid.T) geneCase {
 					o.Exons[k].Off = o.Exons[k-1].Off + rapid.IntRange(0, o.Exons[k-1].Len-1).Draw(t, "ov-into")
 				}
 			case 1: // foreign location
-				o.Exons[rapid.IntRange(0, len(o.Exons)-1).Draw(t, "foreign-k")].Foreign = true
+				if k := rapid.IntRange(0, len(o.Exons)-1).Draw(t, "foreign-k"); rapid.Bool().Draw(t, "foreign-is-nowhere") {
+					o.Exons[k].NoLoc = true
+				} else {
+					o.Exons[k].Foreign = true
+				}
 			case 2: // no zero start (shifted right, or left into negative offsets)
 				d := rapid.SampledFrom([]int{1, 2, 5, 9, -1, -2, -7}).Draw(t, "shift")
 				for k := range o.Exons {
@@ -752,6 +771,9 @@ func gen(t *rapid.T) geneCase {
 					s = span{Off: e.Off + rapid.IntRange(0, e.Len-1).Draw(t, "ov-off"), Len: rapid.IntRange(1, 10).Draw(t, "ov-len")}
 				case 4: // foreign
 					s = span{Off: end + 5, Len: 3, Foreign: true}
+					if rapid.Bool().Draw(t, "add-foreign-is-nowhere") {
+						s = span{Off: end + 5, Len: 3, NoLoc: true}
+					}
 				default:
 					s = span{Off: rapid.IntRange(0, end+10).Draw(t, "any-off"), Len: rapid.IntRange(1, 15).Draw(t, "any-len")}
 				}
@@ -767,6 +789,19 @@ func gen(t *rapid.T) geneCase {
 		if len(model) > 0 && rapid.IntRange(0, 4).Draw(t, "flip") == 0 {
 			c.Ops = append(c.Ops, op{Kind: rapid.SampledFrom([]string{"flip-transcript", "flip-gene"}).Draw(t, "flip-kind")})
 		}
+	}
+	if len(model) > 0 && rapid.IntRange(0, 4).Draw(t, "empty-exon-accepted") == 0 {
+		// last of all (nothing is added after it, so no later exon can start where it lies): an exon of no
+		// length beyond the end or strictly inside an intron - it overlaps nothing and is accepted
+		end := model[len(model)-1].end()
+		s := span{Off: end + rapid.IntRange(1, 10).Draw(t, "empty-beyond")}
+		for g := 1; g < len(model); g++ {
+			if gap := model[g].Off - model[g-1].end(); gap >= 2 && rapid.Bool().Draw(t, "empty-in-gap") {
+				s = span{Off: model[g-1].end() + rapid.IntRange(1, gap-1).Draw(t, "empty-gap-off")}
+				break
+			}
+		}
+		c.Ops = append(c.Ops, op{Kind: "add", Exons: []span{s}, Spare: rapid.SampledFrom([]int{-1, 0, 2}).Draw(t, "empty-spare")})
 	}
 	return c
 }
@@ -817,6 +852,9 @@ func classes(c geneCase) []string {
 		for _, e := range o.Exons {
 			if e.Len == 0 {
 				l = append(l, "exon-of-no-length-inside-another")
+			}
+			if e.NoLoc {
+				l = append(l, "exon-located-nowhere")
 			}
 		}
 	}
